@@ -258,7 +258,9 @@ def run(ctx: Ctx) -> RuleResult:
         res.finding(ss, ss.node, 'the start search is not restricted to non-ignored terminals: a match hidden inside ignored text is '
                                  'skipped, or ignored text starts a match', construct='search-scanner')
     st = repo.func('lark.lexer:Scanner.search')
-    okm = any(isinstance(n, ast.Compare) and isinstance(n.ops[0], ast.Lt) and 'start()' in norm(n) for n in st.body_nodes())
+    from ..exprs import as_less
+    okm = any(as_less(n) is not None and as_less(n)[1] == '<' and norm(as_less(n)[0]).endswith('.start()') and norm(as_less(n)[2]).endswith('.start()')
+              for n in st.body_nodes() if isinstance(n, ast.Compare))
     res.ob('%s %s' % (st.loc(), st.qual), 'the earliest match over all regex chunks is taken', okm)
     if not okm:
         res.finding(st, st.node, 'Scanner.search does not take the minimum start over its regex chunks', construct='search-min')
